@@ -92,6 +92,7 @@ def C11(ctx):
     RQ.check_qs_run(ctx, u)
     RQ.check_qs_period(ctx, u)
     RQ.check_qs_chain(ctx, u)
+    RQ.check_qs_join_leave(ctx, u)
     return ("Structural clauses of C11: the domain mutex guard releases through unlock(); counter/ack-count/agent-count "
             "writes are under the domain mutex; run() unlinks and resets the node before the callback and never touches "
             "it afterwards; callback only under acquire-loaded counter >= target; both barrier functions use the same "
@@ -111,6 +112,9 @@ def C10(ctx):
 def C09(ctx):
     u = need_unit(ctx, "radix")
     RR.check_C09(ctx, u)
+    ctx.rule("K.stale-derived", "in the radix tree a value loaded through the cursor node (mask, index, child) is not used "
+             "after the cursor moved to another node without being reloaded", 4)
+    RL.check_stale_derived(ctx, "K.stale-derived", [f for f in u.functions if (f.owner_cls or "").startswith("frg::rcu_radixtree")])
     return ("Structural clauses of C09: shift counts of pfx_of/idx_of within [0,64) on depth in [0,15]; every link/entry "
             "subscript is idx_of(key, own depth) and mask bits use the same index; the three descents agree on prefix and "
             "leaf tests; entry storage is never moved/freed outside the destructor and values are constructed only in fresh "
@@ -131,6 +135,7 @@ def C13(ctx):
     RO.check_forward_once(ctx, u, ["frg::vector", "frg::small_vector"])
     RL.check_intrusive_list(ctx, u)
     RO.check_small_vector_selection(ctx, u)
+    RO.check_stale_buffer(ctx, u, ["frg::small_vector"])
     return ("Structural clauses of C13: emptiness polarity, front/back subscripts, swap completeness, relocation ranges "
             "in growth, forwarded arguments consumed once, intrusive list link protocol. Not decided: equality with a "
             "reference sequence after arbitrary histories.")
@@ -168,6 +173,7 @@ def C16(ctx):
 def C14(ctx):
     u = need_unit(ctx, "hash_map")
     RH.check_C14(ctx, u)
+    RH.check_trailing_pointer(ctx, u)
     ctx.rule("O7.no-use-after-release", "a chain node is not accessed after frg::destruct released it (remove() moves the "
              "value out first; the destructor and rehash read `next` first)", 2)
     RO.check_no_use_after_release(ctx, u, [f for f in u.functions if f.owner_cls == "frg::hash_map"])
@@ -179,7 +185,7 @@ def C14(ctx):
 
 
 def C18(ctx):
-    sizes = [70] if ctx.tier == "quick" else [1, 63, 64, 65, 70, 128, 200]
+    sizes = [64, 70] if ctx.tier == "quick" else [1, 63, 64, 65, 70, 128, 200]
     for nb in sizes:
         u = need_unit(ctx, "bits", extra_flags=("-DFRG_VERIF_BITS=%d" % nb,), tag="N%d" % nb)
         RBI.check_C18(ctx, u, nb)
@@ -194,6 +200,7 @@ def C15(ctx):
     u = need_unit(ctx, "string")
     RST.check_string_buffers(ctx, u)
     RST.check_views(ctx, u)
+    RST.check_free_after_copies(ctx, u)
     RG.check_swap(ctx, u, ["frg::basic_string"])
     RO.check_empty(ctx, u, ["frg::basic_string"])
     if ctx.tier == "thorough":
@@ -228,6 +235,7 @@ def C20(ctx):
                            label=lambda f: "%s<%s>" % (f.uq, f.get("targs", "").strip("<>")))
     RST.check_accumulation(ctx, "B6.accumulate", uf.fns(uq="frg::printf_format") +
                            [f for f in uf.functions if f.name == "parse_fmt_spec"])
+    RP.check_pop_arg(ctx, uf)
     ctx.rule("R.self-recursion", "no parser or helper calls itself on every path", 0)
     RBI.check_self_recursion(ctx, uf, [f for f in uf.functions if f.uq.startswith("frg::")])
     RBI.check_self_recursion(ctx, us, [f for f in us.functions if f.uq.startswith("frg::")])
@@ -243,6 +251,9 @@ def C19(ctx):
     RP.check_int_conversion_table(ctx, uf)
     RP.check_agent_discipline(ctx, uf)
     RP.check_fmt_spec(ctx, uf)
+    ctx.rule("B6.fmt-width-range", "the {}-spec parser rejects a width before the step that would overflow it (so an "
+             "out-of-range width makes the spec malformed and it is echoed unchanged)", 1)
+    RST.check_accumulation(ctx, "B6.fmt-width-range", [f for f in uf.functions if f.name == "parse_fmt_spec"][:1])
     RP.check_logger(ctx, uf)
     return ("Structural rim of C19 only: the length-modifier table of the integer conversions (every modifier handled, widths "
             "and signedness, sibling agreement), exactly one argument popped per conversion, agent results tested and "
